@@ -81,6 +81,7 @@ type FuncContract struct {
 	Opaque   bool
 	Reveal   []string
 	AbstractDiv bool
+	Effects  []string
 }
 
 type CallbackContract struct {
@@ -169,6 +170,9 @@ func parseContracts(fset *token.FileSet, f *ast.File, pkgPath string) ([]*FuncCo
 				// except inside functions whose contract says `reveal NAME`
 				cur.Pure = true
 				cur.Opaque = true
+			case "effect":
+				// effect NAME...: every call of this function increments the caller's ghost counter NAME
+				cur.Effects = append(cur.Effects, strings.Fields(rest)...)
 			case "abstractdiv":
 				cur.AbstractDiv = true
 			case "reveal":
